@@ -10,8 +10,8 @@ from .report import RuleResult
 from .rules_lattice import flagset
 from .rules_slots import Slot, optional_facts, slot_table
 from .rules_tables import binary_rows, unary_rows
-from .terms import (Attr, BoundMethod, Call, ClassRef, Comp, Const, EnumMember, Evaluator, Ext, FuncRef, Loop, New, Op,
-                    Outcome, Sym, Term, TupleT, _State, alternatives, guards_repr, norm_guards, walk)
+from .terms import (Attr, BoundMethod, Call, ClassRef, Comp, Const, EnumMember, Evaluator, Ext, FuncRef, Ite, Loop, New, Op,
+                    Outcome, Sym, Term, TupleT, _State, alternatives, guards_repr, norm_guards, flat_guards, walk)
 from .util import all_terms, call_name, call_recv, method_calls, none_test, outcome_terms
 
 TYPE_TOKEN_CLASSES = ('TypeToken', 'EnumeratedType', 'RangedType', 'MessageType', 'ArrayType')
@@ -318,7 +318,7 @@ def _quantifier_var(ctx: Ctx, r: RuleResult):
                     for pg, flow, binds, effs in x.paths:
                         for call in method_calls(list(effs), '_type_check'):
                             if call.args and isinstance(call.args[0], Sym) and call.args[0].name.startswith('each:'):
-                                gs = norm_guards(pg)
+                                gs = flat_guards(pg)
                                 if any(isinstance(g, Op) and g.op == '==' and Attr(self_t, 'variable') in g.args and pol for g, pol in gs):
                                     found = True
     if found:
@@ -328,18 +328,37 @@ def _quantifier_var(ctx: Ctx, r: RuleResult):
     # the element type is taken from the domain for set AND range literals
     dom = Attr(self_t, 'domain')
     kinds_using_subtypes = set()
+
+    def uses_subtypes(t) -> bool:
+        return any(isinstance(x, Attr) and x.base == dom and x.name == 'subtypes' for x in walk(t))
+
+    def kinds_in(test, pol: bool):
+        """is_set / is_range atoms that make `test` evaluate to `pol` (through and / or / not)"""
+        if isinstance(test, Op) and test.op == 'not' and len(test.args) == 1:
+            yield from kinds_in(test.args[0], not pol)
+        elif isinstance(test, Op) and test.op in ('and', 'or'):
+            for a in test.args:
+                yield from kinds_in(a, pol)
+        elif pol and isinstance(test, Attr) and test.base == dom and test.name in ('is_set', 'is_range'):
+            yield test.name
     for vfi in c.all_validators('condition'):
         params = vfi.params()
         outs = ctx.ev.run(vfi, {params[0]: self_t, params[2]: Sym('value')}, self_cls=c)
         for o in outs:
-            uses_sub = any(isinstance(x, Attr) and x.base == dom and x.name == 'subtypes' for t in all_terms([o]) for x in walk(t))
-            if not uses_sub:
+            terms = all_terms([o])
+            # the choice is a conditional expression (possibly from an inlined helper)
+            for t in terms:
+                for x in walk(t):
+                    if isinstance(x, Ite):
+                        if uses_subtypes(x.a) and not uses_subtypes(x.test):
+                            kinds_using_subtypes.update(kinds_in(x.test, True))
+                        if uses_subtypes(x.b) and not uses_subtypes(x.test):
+                            kinds_using_subtypes.update(kinds_in(x.test, False))
+            # ... or a branch
+            if not any(uses_subtypes(t) and not any(isinstance(x, Ite) and (uses_subtypes(x.a) or uses_subtypes(x.b)) for x in walk(t)) for t in terms):
                 continue
-            for t, pol in norm_guards(o.guards):
-                if pol:
-                    for x in walk(t):
-                        if isinstance(x, Attr) and x.base == dom and x.name in ('is_set', 'is_range'):
-                            kinds_using_subtypes.add(x.name)
+            for t, pol in o.guards:
+                kinds_using_subtypes.update(kinds_in(t, pol))
     for k, label in (('is_set', 'set'), ('is_range', 'range')):
         if k in kinds_using_subtypes:
             r.ok(f'HplQuantifier: bound variable typed by the element type of a {label} literal domain')
